@@ -484,6 +484,8 @@ decode_huffman_code_block_stateless_ %+ ARCH %+ :
 
 	mov	dword [state + _copy_overflow_len], 0
 	mov	dword [state + _copy_overflow_dist], 0
+	mov	dword [state + _write_overflow_lits], 0
+	mov	dword [state + _write_overflow_len], 0
 
 	sub	end_out, OUT_BUFFER_SLOP
 	sub	end_in, IN_BUFFER_SLOP
@@ -677,8 +679,12 @@ decode_len_dist_2:
 	mov	rcx, repeat_length
 	sub	rsi, look_back_dist
 
-	;; Check if a valid look back distance was decoded
-	cmp	rsi, [rsp + start_out_mem_offset]
+	;; Check if a valid look back distance was decoded. Literals of this
+	;; lookup that did not fit into the output (write_overflow_len, zero
+	;; otherwise) count as produced
+	mov	tmp4 %+ d, dword [state + _write_overflow_len]
+	add	tmp4, rsi
+	cmp	tmp4, [rsp + start_out_mem_offset]
 	jl	invalid_look_back_distance
 
 	;; Check for out buffer overflow
